@@ -463,6 +463,9 @@ public:
     void setCredentials(const QXmpp::Private::Credentials &) override;
     QXmpp::Private::SaslMechanism mechanism() const override { return { QXmpp::Private::SaslDigestMd5Mechanism() }; }
     std::optional<QByteArray> respond(const QByteArray &challenge) override;
+    // RFC 2831 2.1.3: the server proves itself with rspauth; step 3 is only reached with a correct one
+    // (received as a challenge or as additional data with success)
+    bool serverVerified() const override { return m_step > 2; }
 
 private:
     QString m_password;
